@@ -238,6 +238,17 @@ def prop_v2(ctx, case):
         k = next((i for i in range(min(len(second), len(alone))) if second[i] != alone[i]), 0)
         raise Violation('attribution-leaks-between-dumps', f'a dump without thread map, formatted after another dump on the same object: line {k} '
                                                            f'{second[k:k + 1]} instead of {alone[k:k + 1]}')
+    # ---- a request is bound to its dump when it is made: creating (not reading) another request on another dump in
+    # between changes nothing
+    lazy = parser_with(cfg_on)
+    pending = guard(lambda: lazy.formatted_traces(BudgetReader(blob)))
+    other = guard(lambda: lazy.formatted_traces(BudgetReader(blob2)))
+    first = guard(lambda: list(pending))
+    if first != plain:
+        k = next((i for i in range(min(len(first), len(plain))) if first[i] != plain[i]), 0)
+        raise Violation('request-rebound-to-later-dump', f'a listing read after another request was created on a second dump: line {k} '
+                                                         f'{first[k:k + 1]} instead of {plain[k:k + 1]}')
+    guard(lambda: list(other))
     # ---- callstacks
     cbody, csegs = check_composition('callstacks', blob, cfgs)
     for k in range(len(cbody)):
